@@ -37,10 +37,11 @@ json generate(uint64_t seed, uint64_t idx, int tier)
 		strip(schema["opts"]);
 	}
 	plan["schemas"] = json::array({schema});
-	int flags = (r.chance(1, 3) ? F_COMMENTS : 0) | (r.chance(1, 8) ? F_NOCASE : 0);
+	// with ignore-unknown an undeclared name is skipped: accepted, and then silently
+	int flags = (r.chance(1, 3) ? F_COMMENTS : 0) | (r.chance(1, 8) ? F_NOCASE : 0) | (r.chance(1, 6) ? F_IGNORE_UNKNOWN : 0);
 	TextGen tg;
 	tg.max_items = tier ? 10 : 7;
-	tg.ctx_flags = flags;
+	tg.ctx_flags = flags & ~F_IGNORE_UNKNOWN; // the text itself stays free of undeclared items
 	tg.skip_include = true;
 	tg.comments = (int)r.range(1, 2);
 	tg.multiline = true;
@@ -170,6 +171,17 @@ void check_fault(const json &plan, size_t main_step, const Source &src, const st
 	}
 	if (o->diags.empty()) {
 		out.viol.push_back({"unreported:" + kind, "the parse failed without any diagnostic [" + what + "]", plan});
+		return;
+	}
+	// with ignore-unknown an undeclared name is not an error: the item is skipped, and where a text that goes wrong
+	// later is finally refused is not this fault's business (how undeclared items are skipped is C12's)
+	bool ignore_unknown = false;
+	for (auto &s0 : plan["steps"])
+		if (s0["op"] == "init" && (s0.value("flags", 0) & F_IGNORE_UNKNOWN))
+			ignore_unknown = true;
+	if (ignore_unknown) {
+		// (any damaged token can turn the item it belongs to into an undeclared one there)
+		out.k.add("rejected_under_ignore_unknown_position_not_judged");
 		return;
 	}
 	const Diag &d = o->diags[0];
@@ -345,12 +357,24 @@ JudgeOut judge(const json &plan)
 							break;
 						}
 				}
+				if (role == "n" && vt != "kv" && !in_kv && toks[ti][4].get<int>() == 0)
+					// a path through a declared multi section that has no such instance
+					for (auto &so : plan["schemas"][0]["opts"])
+						if (so["t"] == "sec" && (so.value("fl", 0) & F_MULTI)) {
+							std::string q = (so.value("fl", 0) & F_TITLE) ? "=no_such_title_zz" : "=97";
+							faults.push_back({"no_such_instance_in_path", {{"key", "mut"}, {"value", json::array({ci, ti, "\"" + so["n"].get<std::string>() + q + "|x\""})}}});
+							break;
+						}
 				if (role == "n" && vt != "kv" && !in_kv) // an empty quoted string where an option name is expected
 					faults.push_back({"empty_name", {{"key", "mut"}, {"value", json::array({ci, ti, "\"\""})}}});
 				if (role == "n" && vt != "kv" && !in_kv) // in a free-form section an unknown name is a new key, not an error
 					faults.push_back({"undeclared_name", {{"key", "mut"}, {"value", json::array({ci, ti, "nosuch_zz"})}}});
-				if (role == "v" && (vt == "int" || vt == "float" || vt == "bool"))
+				if (role == "v" && (vt == "int" || vt == "float" || vt == "bool")) {
 					faults.push_back({"unconvertible_value", {{"key", "mut"}, {"value", json::array({ci, ti, "zz"})}}});
+					// refused without a single unconverted character being left over: empty, a bare prefix, leading blank, out of range
+					static const char *odd[] = {"\"\"", "0x", "\" 7\"", "99999999999999999999999", "0b", "\"7 \"", "1e99999"};
+					faults.push_back({"unconvertible_value_odd_form", {{"key", "mut"}, {"value", json::array({ci, ti, odd[(ci * 7 + ti + fp) % 7]})}}});
+				}
 				// errors raised by the scanner itself: an octal escape above 0xFF, a digit escape that is not octal
 				if ((role == "v" && vt == "str") || role == "a" || role == "t") {
 					faults.push_back({"bad_escape", {{"key", "mut"}, {"value", json::array({ci, ti, (ci + ti) % 2 ? "\"ab\\400\"" : "\"\\9z\""})}}});
@@ -423,6 +447,7 @@ Property P = [] {
 			 "because the text before the injection point is valid and the parser is one-pass, the first diagnostic must be about the injected token",
 			 "the return code is observed, not predicted: a damaged text that is still accepted must deliver no diagnostic (whether it should be accepted is C01)",
 			 "for a cut inside a token that spans several lines any line from the token's first line to the line on which the delivered bytes end is accepted",
+			 "in a sixth of the plans the context ignores undeclared items: there any damaged token can turn its item into an undeclared one, which is skipped - only 'accepted means no diagnostic' and 'refused means reported with the parse-error code' are judged, not the position",
 			 "a plan whose undamaged text is not accepted is discarded and counted; premature ends inside included files are injected only inside single-quoted strings (anywhere else the scanner continues in the includer by design)",
 			 "the schedule dimension is empty for this property: the fault is a corruption / cut at a known instant of a known file in the simulated include tree"};
 	p.probes = {"rejected_with_position_checked", "error_inside_included_file", "callback_refusal_position_checked"};
